@@ -147,6 +147,14 @@ def runtime_table_integrity(cov, fail):
     odd = [fn.simple_server(kex=('curve25519-sha256', 'diffie-hellman-group1-sha1'), key=('ssh-dss', 'ssh-rsa', 'ssh-ed25519'), enc=('aes256-ctr', '3des-cbc', 'arcfour'),
                             mac=('hmac-sha2-256', 'hmac-md5', 'hmac-sha1'), hostkeys={'ssh-dss': fn.dss_blob(b), 'ssh-rsa': fn.rsa_blob(4096), 'ssh-ed25519': fn.ed25519_blob()})
            for b in (1024, 2048, 3072)]
+    # … and servers that still offer the SHA-1 group exchange and answer the modulus probes with groups of every class (seed C17-12: a measured
+    # modulus of 2048 bits or more replaced the entry's failure list by an empty one): whatever size is measured, the SHA-1 finding stays
+    def gex_of(b):
+        return lambda mn, pf, mx: b if mn <= b <= mx else (None if mx < b else b)
+    for b in (1024, 1536, 2048, 3072, 4096, 8192):
+        for ban in (b'SSH-2.0-OpenSSH_7.4', b'SSH-2.0-dropbear_2019.78'):
+            odd.append(fn.simple_server(kex=('diffie-hellman-group-exchange-sha256', 'diffie-hellman-group-exchange-sha1', 'curve25519-sha256'), key=('ssh-ed25519',),
+                                        enc=('aes256-ctr',), mac=('hmac-sha2-256',), banner=ban, hostkeys={'ssh-ed25519': fn.ed25519_blob()}, gex=gex_of(b)))
     for k, osrv in enumerate(odd):
         SSH2_KexDB.thread_exit()
         code, out = fn.run_main(['-n', '--skip-rate-test', '10.3.3.4'], fn.FakeNet({'10.3.3.4': osrv}), fresh=False)
